@@ -13,8 +13,10 @@ import (
 	"sync"
 	"sync/atomic"
 
+	"github.com/jmoiron/sqlx"
 	"github.com/metrico/cloki-config/config"
 	"github.com/metrico/qryn/reader/model"
+	"github.com/metrico/qryn/reader/utils/dsn"
 )
 
 // Rows is a scripted result set.
@@ -93,6 +95,7 @@ type Session struct {
 	Closed   int64
 	RowsRead int64
 	db       *sql.DB
+	wrapped  model.ISqlxDB
 	// schema answers for the two statements dbVersion issues
 	Tables   []string
 	Versions map[string]string // e.g. {"tempo_v2": "0"}
@@ -251,11 +254,31 @@ func (r *Registry) Run()        {}
 func (r *Registry) Stop()       {}
 func (r *Registry) Ping() error { return nil }
 
-// Use switches the registry to another session (e.g. another schema).
+// Use switches the registry to another session (e.g. another schema). The reader gets the session behind the
+// wrapper it uses in production (reader/utils/dsn.StableSqlxDBWrapper: reconnects after a failed statement), not
+// the bare session.
 func (r *Registry) Use(s *Session, cluster string) {
 	r.mu.Lock()
 	defer r.mu.Unlock()
-	r.d = &model.DataDatabasesMap{Config: &config.ClokiBaseDataBase{Node: s.Name, Name: "db", ClusterName: cluster}, Session: s}
+	r.d = &model.DataDatabasesMap{Config: &config.ClokiBaseDataBase{Node: s.Name, Name: "db", ClusterName: cluster}, Session: s.Wrapped()}
+}
+
+// Wrapped returns the session behind the production connection wrapper (one wrapper per session).
+func (s *Session) Wrapped() model.ISqlxDB {
+	s.mu.Lock()
+	defer s.mu.Unlock()
+	if s.wrapped == nil {
+		open := func() *sqlx.DB {
+			db, err := sql.Open("verifch", s.Name)
+			if err != nil {
+				panic(err)
+			}
+			db.SetMaxOpenConns(64)
+			return sqlx.NewDb(db, "verifch")
+		}
+		s.wrapped = &dsn.StableSqlxDBWrapper{DB: open(), GetDB: open, Name: s.Name}
+	}
+	return s.wrapped
 }
 
 func NewRegistry(s *Session, cluster string) *Registry {
